@@ -122,14 +122,16 @@ def r15_1(run):
                         if isinstance(d, ast.Dict):
                             keys_w |= {const_str(k) for k in d.keys if const_str(k)}
                         elif isinstance(d, ast.DictComp):
-                            keys_w.add("<table:%s>" % U(d.generators[0].iter).replace("self.", "").replace("cls.", ""))
+                            tn_ = _table_attr(d.generators[0].iter)
+                            keys_w.add("<table:%s>" % (tn_ or U(d.generators[0].iter)))
                     if isinstance(n, ast.Assign) and isinstance(n.targets[0], ast.Subscript) and const_str(n.targets[0].slice):
                         keys_w.add(const_str(n.targets[0].slice))
                 for n in ast.walk(fd.node):
                     if isinstance(n, ast.Subscript) and isinstance(n.ctx, ast.Load) and U(n.value) == "d" and const_str(n.slice):
                         keys_r.add(const_str(n.slice))
-                    if isinstance(n, ast.Compare) and any(isinstance(o, (ast.In, ast.NotIn)) for o in n.ops) and "keys()" in U(n.comparators[0]):
-                        keys_r.add("<table:%s>" % U(n.comparators[0]).replace("self.", "").replace("cls.", ""))
+                    if isinstance(n, ast.Compare) and any(isinstance(o, (ast.In, ast.NotIn)) for o in n.ops) \
+                            and _table_attr(n.comparators[0]) is not None:
+                        keys_r.add("<table:%s>" % _table_attr(n.comparators[0]))
                     if isinstance(n, ast.Assign):
                         for t in n.targets:
                             if (isinstance(t, ast.Attribute) and t.attr == a) or (isinstance(t, ast.Subscript) and const_str(t.slice) == a):
@@ -139,7 +141,7 @@ def r15_1(run):
                 out = set()
                 for k_ in ks:
                     if k_.startswith("<table:"):
-                        nm = k_[7:-1].split(".")[0]
+                        nm = k_[7:-1].split(".")[0].split("(")[0]
                         for kc in ix.mro(ci):
                             v_ = kc.attrs.get(nm)
                             if isinstance(v_, ast.Dict):
@@ -154,6 +156,15 @@ def r15_1(run):
                    "to_dict/from_dict pair stores and rebuilds it" % (a, "/".join(sorted(kinds))), w,
                    detail="excluded=%s custom pair=%s restored=%s keys written=%s read=%s" % (a in excl, custom, restored, sorted(keys_w), sorted(keys_r)))
     run.floor(30)
+
+
+def _table_attr(e):
+    """name of the class-level key table in `self.X`, `cls.X`, `self.X.keys()`, `cls.X.keys()` (None otherwise)"""
+    if isinstance(e, ast.Call) and isinstance(e.func, ast.Attribute) and e.func.attr == "keys" and not e.args:
+        e = e.func.value
+    if isinstance(e, ast.Attribute) and isinstance(e.value, ast.Name) and e.value.id in ("self", "cls"):
+        return e.attr
+    return None
 
 
 def _sh(ok, what):
